@@ -393,6 +393,18 @@ class Problem:
                 a[idx] = S(z3.Real(f"xstar{k}_{v.id}_" + "_".join(map(str, idx))))
             xstar[v] = a.view(SymArray)
         obj, cons = self.at(xstar, params)
+        names = set()
+        for a in xstar.values():
+            names |= {t.t.decl().name() for t in np.asarray(a).ravel()}
+        if getattr(e, "const_mode", False) or symnp._symbols(cons) <= names:
+            # all parameters are concrete (const-mode validation run): decide feasibility like a real solver would report it
+            verdict, _ = e.solve([cons], timeout_ms=20000, with_pc=getattr(e, "const_mode", False))
+            if verdict == "unsat":
+                self.value = float("inf")
+                self.status = "infeasible"
+                for v in xstar:
+                    v._value = None
+                return self.value
         e.assume(cons)
         for v, a in xstar.items():
             v._value = a
